@@ -551,3 +551,96 @@ class CloseHistories(Contract):
 
 
 CONTRACTS = [ReadOnlyHistories, CloseHistories]
+
+
+class SaveAsNative(Contract):
+    """save_as on a workspace that already lives on disk (or in memory): everything completed before
+    the call -- write-through edits and those whose persistence waits for the close -- is in the old
+    file and in the new one; the workspace then works on the new file only (what is done afterwards
+    lands there and not in the old file), and closing it releases the handle."""
+    target = "geoh5py/workspace/workspace.py::Workspace.save_as"
+    variant = "save-as"
+    symbolic = False
+    has_native = True
+    props = ("C11",)
+    bounded_scope = "workspace {on disk, in memory} holding points with data and a drillhole group; before the call {nothing more, a rename, a drillhole rename + data-flag edit (deferred persistence)}; after the call a new object is created; both files re-opened and compared (exhaustive over the 6 combinations, plus a second save_as in a row)"
+
+    def native_cases(self, tier, rng):
+        for store in ("disk", "memory"):
+            for before in ("nothing", "rename", "deferred"):
+                yield {"store": store, "before": before, "twice": False}
+        yield {"store": "disk", "before": "deferred", "twice": True}
+
+    def native_check(self, case):
+        from geoh5py.groups import DrillholeGroup
+        from geoh5py.objects import Drillhole, Points
+        from geoh5py.shared.exceptions import Geoh5FileClosedError
+        from geoh5py.workspace import Workspace
+
+        d = tempfile.mkdtemp()
+        try:
+            first, second, third = (os.path.join(d, n) for n in ("first.geoh5", "second.geoh5", "third.geoh5"))
+            ws = Workspace() if case["store"] == "memory" else Workspace.create(first)
+            p = Points.create(ws, name="pts", vertices=np.arange(9.0).reshape(3, 3))
+            p.add_data({"v": {"values": np.arange(3.0)}})
+            grp = DrillholeGroup.create(ws, name="DH")
+            h = Drillhole.create(ws, name="H0", parent=grp, collar=np.r_[0.0, 0.0, 0.0], surveys=np.c_[np.r_[0.0, 10.0], np.zeros(2), np.ones(2) * -90.0])
+            h.add_data({"log": {"depth": np.array([1.0, 2.0]), "values": np.arange(2.0)}})
+            if case["store"] == "disk":
+                del p, grp, h
+                ws.close()
+                ws = Workspace(first, mode="r+")
+                p = ws.get_entity("pts")[0]
+                h = [c for c in ws.get_entity("DH")[0].children][0]
+            names = {"pts": "pts", "hole": "H0"}
+            if case["before"] in ("rename", "deferred"):
+                p.name = names["pts"] = "pts renamed"
+            if case["before"] == "deferred":
+                h.name = names["hole"] = "H0 renamed"
+                dat = h.get_data("log")[0]
+                dat.allow_rename = False
+            del p, h
+            out = ws.save_as(second)
+            if case["twice"]:
+                out = out.save_as(third)
+                second_, last = second, third
+            else:
+                second_, last = None, second
+            Points.create(out, name="after", vertices=np.zeros((2, 3)))
+            out.close()
+            try:
+                out.geoh5
+                return f"the handle is still open after closing the workspace returned by save_as ({case})"
+            except Geoh5FileClosedError:
+                pass
+
+            def describe(path):
+                with Workspace(path, mode="r") as w:
+                    objs = sorted(o.name for o in w.objects)
+                    holes = [c for g_ in w.groups if isinstance(g_, _DG()) for c in g_.children]
+                    flags = [bool(c.get_data("log")[0].allow_rename) for c in holes]
+                    return objs, flags
+
+            want_before = sorted([names["pts"], names["hole"]])
+            flag = [case["before"] != "deferred"]
+            files = ([first] if case["store"] == "disk" else []) + ([second_] if second_ else [])
+            for path in files:
+                bad = wf_file(path)
+                if bad:
+                    return f"after save_as the file left behind is not valid: {bad} ({case})"
+                got = describe(path)
+                if got != (want_before, flag):
+                    return f"the file left behind by save_as holds {got}, expected {(want_before, flag)}: what was done before the call is missing, or what was done after it landed there ({case})"
+            bad = wf_file(last)
+            if bad:
+                return f"the file written by save_as is not valid: {bad} ({case})"
+            got = describe(last)
+            if got != (sorted(want_before + ["after"]), flag):
+                return f"the file written by save_as holds {got}, expected {(sorted(want_before + ['after']), flag)} ({case})"
+            return None
+        finally:
+            gc.collect()
+            shutil.rmtree(d, ignore_errors=True)
+
+
+CONTRACTS = CONTRACTS + [SaveAsNative]
